@@ -147,6 +147,19 @@ FairSpec == Spec /\ WF_vars(Next)
 \* the memo never disagrees with the text it was made from
 CacheCoherent == \A u \in Uris : cache[u] # None => cache[u] = docs[u]
 
+\* the documents the project holds are the ones the protocol defines: the text of the last didOpen, or the LAST
+\* content change of the last non-empty didChange, per document (full-text synchronisation) - computed from the
+\* history alone, independently of the actions above
+ProtocolDocs ==
+  LET F[i \in 0..Len(hist)] ==
+        IF i = 0 THEN [u \in Uris |-> None]
+        ELSE LET m == hist[i] IN
+             IF m.k = "open" /\ m.u \in Uris THEN [F[i - 1] EXCEPT ![m.u] = m.t]
+             ELSE IF m.k = "change" /\ m.u \in Uris /\ m.ts # <<>> THEN [F[i - 1] EXCEPT ![m.u] = m.ts[Len(m.ts)]]
+             ELSE F[i - 1]
+  IN  F[Len(hist)]
+DocsFollowProtocol == docs = ProtocolDocs
+
 \* every didOpen / didChange appends exactly one publish for that document, with the notification's version,
 \* whose content is a function of the *new* document state only
 PublishExactlyOnce ==
